@@ -42,3 +42,18 @@ Example C12_premise_satisfiable :
   parse_result MSimple [] (JInt 7%Z) r0
     = Some (JDict [("select", JDict [("value", JDict [("over", JInt 7%Z); ("f", JList [JStr "a"; JInt 7%Z])])]); ("from", JStr "t")]).
 Proof. vm_compute. repeat split; reflexivity. Qed.
+
+(* listed finding C12:hand-written-operator-dicts at model level: a node that a parse action hands over as a literal {op: args} dictionary
+   (2x, MERGE ... THEN DELETE) is not an application for scrub: it is neither written in normal form nor renamed, while the Call is *)
+Theorem C12_literal_dictionary_refuted :
+  let r := RDict [("mul", RList [RInt 2%Z; RStr "x"])] in
+  scrub_s MNormal [("mul", "times")] r = Some (JDict [("mul", JList [JInt 2%Z; JStr "x"])], []) /\
+  scrub_s MNormal [("mul", "times")] (RCall "mul" (RList [RInt 2%Z; RStr "x"]) []) = Some (JDict [("op", JStr "times"); ("args", JList [JInt 2%Z; JStr "x"])], []).
+Proof. vm_compute. split; reflexivity. Qed.
+
+(* listed finding C12:keyword-argument-named-like-operation: simple_op writes kwargs[op] = args (goodb is false exactly there); normal_op keeps both *)
+Theorem C12_keyword_named_like_operation_refuted :
+  let r := RCall "f" (RList [RStr "x"]) [("f", RInt 1%Z)] in
+  goodb MSimple [] r = false /\ scrub_s MSimple [] r = Some (JDict [("f", JStr "x")], []) /\
+  scrub_s MNormal [] r = Some (JDict [("op", JStr "f"); ("args", JList [JStr "x"]); ("kwargs", JDict [("f", JInt 1%Z)])], []).
+Proof. vm_compute. repeat split; reflexivity. Qed.
